@@ -168,8 +168,10 @@ def resolve_all(
     if isinstance(x, list):
         x = [resolve_all(v, default=default, _path=_path) for v in x]
     elif isinstance(x, dict):
-        for k, v in x.items():
-            x[k] = resolve_all(v, default=default, _path=_path)
+        # A new dictionary: rewriting x in place would change the objects
+        # cached by the document and, on circular references, tie them into
+        # a cyclic structure that no later pass could get through.
+        x = {k: resolve_all(v, default=default, _path=_path) for k, v in x.items()}
     return x
 
 
